@@ -263,7 +263,7 @@ pub fn run(ctx: &Ctx) -> i32 {
     let wo = if th { 7 } else { 6 }; // obscuration patterns on trees up to this weight
     let mut trees = families::plain(w);
     let nb = trees.len();
-    trees.extend(families::decode_only());
+    trees.extend(families::decode_only()); trees.extend(families::nsn());
     let acc = trees.par_iter().enumerate().with_max_len(1).map(|(ti, m)| {
         let mut acc = Acc::new();
         acc.inc("trees");
